@@ -831,17 +831,33 @@ def rule_support(cx, rec, rule="K4"):
         base = atom(("arg", pos))
         return {a for a in bad - ok if (a[1] - base).const() is not None}
 
+    def end_fields(kind, pos):
+        # varying-size vectors: data_end() is a stored field whose value depends on the history (it may or may not
+        # include the padding behind the last element); only the whole-buffer byte comparison may read it
+        if kind != "vec" or cx.pl.all_fixed_locator:
+            return set()
+        base = atom(("arg", pos))
+        acc = atoms_of(cx.vec(pos)["end"], set()) - atoms_of(cx.vec(pos)["begin"], set()) - atoms_of(cx.vec(pos)["size"], set())
+        return {a for a in acc if (a[1] - base).const() is not None}
+
+    def has_memcmp(t):
+        found = []
+        walk_atoms(t, lambda a: found.append(a) if a[0] == "purecall" and a[1] == "memcmp" else None)
+        return bool(found)
+
     for ka, kb in cx.pairs:
-        fb = forbidden(ka, 0) | forbidden(kb, 1)
+        fb0 = forbidden(ka, 0) | forbidden(kb, 1)
+        fe = end_fields(ka, 0) | end_fields(kb, 1)
         for op in ("eq", "ne", "lt", "le", "gt", "ge"):
             fn = cx.fname(ka, kb, op)
             r = cx.ret(ka, kb, op)
             used = atoms_of(r, set())
+            fb = fb0 | (fe if not has_memcmp(r) else set())
             hit = used & fb
             rec.ob(rule, not hit, {"config": tu.cfg, "witness": fn, "obligation": "result independent of capacity / footprint / allocator fields", "fields": len(fb)} if op == "eq" else None)
             if hit:
                 rec.finding(rule, "%s-%s:depends-on-bookkeeping" % ("vector" if ka == "vec" else "element", "eq" if op in ("eq", "ne") else "lt"),
-                            "%s: the result depends on %s, a field that only capacity() / memory_consumption() / get_allocator() / the storage size read" % (
+                            "%s: the result depends on %s, a field that only capacity() / memory_consumption() / get_allocator() / the storage size (or, on the element-wise path, the history-dependent data_end()) read" % (
                                 fn, ", ".join(sorted(show(atom(a)) for a in hit))[:200]), config=tu.cfg, witness=fn)
 
 
